@@ -513,11 +513,15 @@ def m_chunk_validate(p, path, c):
         raise Refuse("step-larger-than-chunk")
     if st[1] == 0:
         raise Refuse("zero-step")
+    if c % abs(st[1]) != 0:
+        raise Refuse("step-not-dividing-chunksize")          # (fix commit on /repo, props/C05/fix.patch)
     if has_kind(lp[5], ("exit", "cycle")):
         raise Refuse("codeblock")
     accs = []
     acc_expr(lp[2], accs)
     acc_expr(lp[3], accs)
+    if lp[1] in by_name(accs):
+        raise Refuse("loop-variable-in-bounds")               # (fix commit on /repo, props/C05/fix.patch)
     bnames = set(by_name(accs)) | {lp[1]}
     body = by_name(acc_block(lp[5], (), []))
     for nm in bnames:
@@ -651,6 +655,10 @@ def hoist_reasons(p, path):
     n = path[-1]
     before = loop[5][:n]
     out = []
+    st = loop[5][n]
+    rw = [a for a in acc_stmt(loop, (0,), []) if a[0] == st[1] and a[1] == "RW"]
+    if rw:
+        out.append("variable-modified-by-call")
     if has_kind(before, ("return",)) or has_kind(before, ("exit", "cycle"), False):
         out.append("early-exit-before-statement")
     out.append("zero-trip")
